@@ -73,6 +73,15 @@ class Ctx(object):
             sys.stdout.flush()
 
     def finish(self):
+        # every listed open finding of this property gets its line, also when this run did not come across it (rare
+        # schedules, tiers that skip the scenario): a listed finding is never silent, and never more than a line
+        listed_only = []
+        for e in active_known(self.known):
+            if e.get("property") == self.prop and e["id"] not in self.known_hits:
+                listed_only.append(e["id"])
+                print("KNOWN-FINDING: property=%s %s [listed in known_findings.json; not reproduced in this run]"
+                      % (self.prop, e.get("scope", e["id"])))
+        sys.stdout.flush()
         ev = {
             "property_id": self.prop,
             "tier": self.tier,
@@ -87,6 +96,8 @@ class Ctx(object):
             ev["coverage"]["notes"] = self.notes
         if self.known_hits:
             ev["coverage"]["known_findings_reproduced"] = self.known_hits
+        if listed_only:
+            ev["coverage"]["known_findings_listed_not_reproduced"] = listed_only
         os.makedirs(EVID, exist_ok=True)
         tmp = os.path.join(EVID, ".%s.json.tmp" % self.prop)
         with open(tmp, "w") as f:
